@@ -109,6 +109,10 @@ pub fn replay_case<K: Kern<D>, const D: usize>(tr: &mut Tracer, evs: &[Value]) {
                 );
                 tr.dkey.clear();
                 if let Some(dt) = built {
+                    // what do the library's own validators say about what it just returned?
+                    if std::env::var_os("VERIF_REPLAY_VERDICTS").is_some() {
+                        op_verdicts(tr, obj as usize, &dt, 7);
+                    }
                     objs.insert(obj, dt);
                 }
             }
